@@ -179,6 +179,8 @@ enum Rule {
     ReturnType,
     PassPositional,
     PassNamed,
+    PassPositionalNonScalar,
+    PassNamedNonScalar,
     PassMethod,
     PassMethodNamed,
     PassCtorField,
@@ -204,7 +206,7 @@ enum Rule {
     /// informational only (docs are contradictory on whether `xs.append(..)` needs `mut xs`): never a violation
     InfoMutatingMethod,
 }
-const RULES: [Rule; 35] = [
+const RULES: [Rule; 37] = [
     Rule::UnknownValue,
     Rule::UnknownCallee,
     Rule::UnknownField,
@@ -217,6 +219,8 @@ const RULES: [Rule; 35] = [
     Rule::ReturnType,
     Rule::PassPositional,
     Rule::PassNamed,
+    Rule::PassPositionalNonScalar,
+    Rule::PassNamedNonScalar,
     Rule::PassMethod,
     Rule::PassMethodNamed,
     Rule::PassCtorField,
@@ -257,6 +261,8 @@ impl Rule {
             Rule::ReturnType => "wrong-type:return",
             Rule::PassPositional => "wrong-type:call-positional",
             Rule::PassNamed => "wrong-type:call-named",
+            Rule::PassPositionalNonScalar => "wrong-type:call-positional-nonscalar",
+            Rule::PassNamedNonScalar => "wrong-type:call-named-nonscalar",
             Rule::PassMethod => "wrong-type:method-arg",
             Rule::PassMethodNamed => "wrong-type:method-arg-named",
             Rule::PassCtorField => "wrong-type:ctor-field",
@@ -288,7 +294,8 @@ impl Rule {
     fn kind(self) -> Kind {
         use Rule::*;
         match self {
-            UnknownValue | UnknownCallee | UnknownField | UnknownMethod | PassPositional | PassNamed | PassMethod
+            UnknownValue | UnknownCallee | UnknownField | UnknownMethod | PassPositional | PassNamed | PassPositionalNonScalar
+            | PassNamedNonScalar | PassMethod
             | PassMethodNamed | PassCtorField | TryNonResult | TryOption | TryIncompatibleErr | TryInNonResultFn
             | CtorMissing | CtorDuplicate | CtorUnknown => Kind::Expr,
             ReturnType => Kind::Return,
@@ -428,8 +435,8 @@ impl Case {
         if matches!(self.rule, Rule::Reassign | Rule::AssignReassign) && self.eff_decl_up() > 0 {
             k.push(KEY_OUTER_ASSIGN);
         }
-        if matches!(self.rule, Rule::PassPositional | Rule::PassNamed) {
-            k.push(KEY_CALL_ARGS);
+        if matches!(self.rule, Rule::PassPositionalNonScalar | Rule::PassNamedNonScalar) {
+            k.push(KEY_CALL_ARGS_NONSCALAR);
         }
         if self.rule == Rule::TryInNonResultFn {
             k.push(KEY_TRY_NON_RESULT_FN);
@@ -449,12 +456,12 @@ impl Case {
 
 const KEY_ELIF: &str = "elif-body-unchecked";
 const KEY_OUTER_ASSIGN: &str = "plain-assign-outer-binding-lookup-local";
-const KEY_CALL_ARGS: &str = "function-call-args-unchecked";
+const KEY_CALL_ARGS_NONSCALAR: &str = "function-call-nonscalar-arg-type-unchecked";
 const KEY_TRY_NON_RESULT_FN: &str = "try-in-non-result-fn-unchecked";
 const KEY_FIELD_WRITE: &str = "field-write-immutable-binding-unchecked";
 const KEY_SELF_FIELD_WRITE: &str = "self-field-write-immutable-self-unchecked";
 const ALL_CONSTRUCT_KEYS: [&str; 6] =
-    [KEY_ELIF, KEY_OUTER_ASSIGN, KEY_CALL_ARGS, KEY_TRY_NON_RESULT_FN, KEY_FIELD_WRITE, KEY_SELF_FIELD_WRITE];
+    [KEY_ELIF, KEY_OUTER_ASSIGN, KEY_CALL_ARGS_NONSCALAR, KEY_TRY_NON_RESULT_FN, KEY_FIELD_WRITE, KEY_SELF_FIELD_WRITE];
 
 #[derive(Clone, Copy, PartialEq)]
 enum St {
@@ -570,10 +577,14 @@ def helper(n: int) -> int:
     return n + 1
 
 
+def norm_of(p: Point) -> int:
+    return p.x + p.y
+
+
 "#;
 
 const PARAMS: &str =
-    "n: int, pt: Point, col: Color, sh: Shape, opt: Option[int], res: Result[int, str], res2: Result[int, int], xs: list[int]";
+    "n: int, pt: Point, col: Color, sh: Shape, opt: Option[int], res: Result[int, str], res2: Result[int, int], ro: Result[Option[int], str], xs: list[int]";
 
 enum Body {
     Expr { text: String, ty: Ty },
@@ -633,6 +644,21 @@ fn fill(c: &Case, violate: bool) -> Fill {
         },
         PassPositional => expr("helper(\"s\")", "helper(1)", Ty::Int),
         PassNamed => expr("helper(n=\"s\")", "helper(n=1)", Ty::Int),
+        // a model value for a scalar parameter / a scalar for a model parameter
+        PassPositionalNonScalar => {
+            if v2 % 2 == 0 {
+                expr("helper(pt)", "helper(pt.x)", Ty::Int)
+            } else {
+                expr("norm_of(\"s\")", "norm_of(pt)", Ty::Int)
+            }
+        }
+        PassNamedNonScalar => {
+            if v2 % 2 == 0 {
+                expr("helper(n=pt)", "helper(n=pt.x)", Ty::Int)
+            } else {
+                expr("norm_of(p=n)", "norm_of(p=pt)", Ty::Int)
+            }
+        }
         PassMethod => expr("pt.scale(\"s\")", "pt.scale(2)", Ty::Int),
         PassMethodNamed => expr("pt.scale(k=\"s\")", "pt.scale(k=2)", Ty::Int),
         PassCtorField => {
@@ -692,20 +718,176 @@ fn fill(c: &Case, violate: bool) -> Fill {
     }
 }
 
+#[derive(Clone, Copy, PartialEq)]
+enum Pay {
+    Int,
+    Str,
+    OptInt,
+}
+
+struct VariantShape {
+    qualified: &'static str,
+    /// unqualified spelling (documented for data variants; an unqualified unit variant would be a binding)
+    unqualified: Option<&'static str>,
+    payload: &'static [Pay],
+}
+
+/// deterministic stream of small numbers derived from the variant bytes (the shape of a match is generated, not fixed)
+struct Mix(u64);
+impl Mix {
+    fn next(&mut self, n: usize) -> usize {
+        self.0 = util::mix(self.0);
+        ((self.0 >> 17) as usize) % n.max(1)
+    }
+}
+
 /// `match` over enum / Option / Result with one variant omitted (violating) or complete (twin).
+/// The remaining arms have a generated shape: 1-3 arms per handled variant (literal / nested / guarded arms before the
+/// irrefutable one), hence often more arms than variants, arms of different variants interleaved in any order, qualified
+/// and unqualified constructor spellings, four arm spellings. The twin adds the missing variant or a catch-all arm.
 fn fill_match(c: &Case, violate: bool) -> Fill {
-    let (subject, arms): (&str, Vec<&str>) = match c.rule {
-        Rule::MatchEnumUnit => ("col", vec!["Color.Red", "Color.Green", "Color.Blue"]),
-        Rule::MatchEnumData => ("sh", vec!["Shape.Circle(mr)", "Shape.Rect(ma, mb)", "Shape.Dot"]),
-        Rule::MatchOption => ("opt", vec!["Some(mq)", "None"]),
-        _ => ("res", vec!["Ok(mq)", "Err(me)"]),
+    let mut rng = Mix(util::hash_of(&(c.v, c.rule.name())));
+    let (subject, variants): (&str, Vec<VariantShape>) = match c.rule {
+        Rule::MatchEnumUnit => (
+            "col",
+            vec![
+                VariantShape { qualified: "Color.Red", unqualified: None, payload: &[] },
+                VariantShape { qualified: "Color.Green", unqualified: None, payload: &[] },
+                VariantShape { qualified: "Color.Blue", unqualified: None, payload: &[] },
+            ],
+        ),
+        Rule::MatchEnumData => (
+            "sh",
+            vec![
+                VariantShape { qualified: "Shape.Circle", unqualified: Some("Circle"), payload: &[Pay::Int] },
+                VariantShape { qualified: "Shape.Rect", unqualified: Some("Rect"), payload: &[Pay::Int, Pay::Int] },
+                VariantShape { qualified: "Shape.Dot", unqualified: None, payload: &[] },
+            ],
+        ),
+        Rule::MatchOption => (
+            "opt",
+            vec![
+                VariantShape { qualified: "Some", unqualified: None, payload: &[Pay::Int] },
+                VariantShape { qualified: "None", unqualified: None, payload: &[] },
+            ],
+        ),
+        _ => {
+            if rng.next(2) == 0 {
+                (
+                    "res",
+                    vec![
+                        VariantShape { qualified: "Ok", unqualified: None, payload: &[Pay::Int] },
+                        VariantShape { qualified: "Err", unqualified: None, payload: &[Pay::Str] },
+                    ],
+                )
+            } else {
+                (
+                    "ro",
+                    vec![
+                        VariantShape { qualified: "Ok", unqualified: None, payload: &[Pay::OptInt] },
+                        VariantShape { qualified: "Err", unqualified: None, payload: &[Pay::Str] },
+                    ],
+                )
+            }
+        }
     };
-    let omit = (c.v[2] as usize) % arms.len();
-    let spelling = c.v[3] % 4; // 0 case-block, 1 case-inline, 2 arrow-block, 3 arrow-inline
-    let guards = (c.v[0] % 2 == 1) && spelling < 2;
+    let omit = rng.next(variants.len());
+    let spelling = rng.next(4); // 0 case-block, 1 case-inline, 2 arrow-block, 3 arrow-inline
+    let can_guard = spelling < 2;
+    // every remaining arm guarded: nothing is really covered, the twin needs a catch-all
+    let all_guarded = can_guard && rng.next(5) == 0;
+
+    // (variant index, rank within the variant, pattern text, guard)
+    let mut arms: Vec<(usize, usize, String, Option<String>)> = Vec::new();
+    let mut serial = 0usize;
+    let mut pattern = |v: &VariantShape, refutable_at: Option<usize>, rng: &mut Mix| -> String {
+        serial += 1;
+        let head = match v.unqualified {
+            Some(u) if rng.next(2) == 1 => u,
+            _ => v.qualified,
+        };
+        if v.payload.is_empty() {
+            return head.to_string();
+        }
+        let subs: Vec<String> = v
+            .payload
+            .iter()
+            .enumerate()
+            .map(|(i, p)| {
+                if Some(i) == refutable_at {
+                    match p {
+                        Pay::Int => ["0", "1", "7"][rng.next(3)].to_string(),
+                        Pay::Str => "\"x\"".to_string(),
+                        Pay::OptInt => {
+                            if rng.next(2) == 0 {
+                                format!("Some(m{serial}n)")
+                            } else {
+                                "None".to_string()
+                            }
+                        }
+                    }
+                } else if rng.next(4) == 0 {
+                    "_".to_string()
+                } else {
+                    format!("m{serial}{}", ["a", "b"][i % 2])
+                }
+            })
+            .collect();
+        format!("{head}({})", subs.join(", "))
+    };
+    for (vi, v) in variants.iter().enumerate() {
+        if vi == omit {
+            continue;
+        }
+        let mut k = 1 + rng.next(3);
+        if v.payload.is_empty() && !can_guard {
+            k = 1; // an unguarded unit-variant arm cannot be made refutable
+        }
+        for rank in 0..k {
+            let last = rank + 1 == k;
+            if last {
+                let pat = pattern(v, None, &mut rng);
+                let guard = if all_guarded { Some(format!("n > {rank}")) } else { None };
+                arms.push((vi, rank, pat, guard));
+            } else if !v.payload.is_empty() && (!can_guard || rng.next(3) != 0) {
+                let at = rng.next(v.payload.len());
+                let pat = pattern(v, Some(at), &mut rng);
+                arms.push((vi, rank, pat, None));
+            } else {
+                let pat = pattern(v, None, &mut rng);
+                arms.push((vi, rank, pat, Some(format!("n > {}", rank + 1))));
+            }
+        }
+    }
+    // any order: shuffle, then within each variant put the arms back in rank order (specific before irrefutable)
+    for i in (1..arms.len()).rev() {
+        let j = rng.next(i + 1);
+        arms.swap(i, j);
+    }
+    for vi in 0..variants.len() {
+        let slots: Vec<usize> = (0..arms.len()).filter(|&i| arms[i].0 == vi).collect();
+        let mut mine: Vec<(usize, usize, String, Option<String>)> = slots.iter().map(|&i| arms[i].clone()).collect();
+        mine.sort_by_key(|a| a.1);
+        for (slot, a) in slots.into_iter().zip(mine.into_iter()) {
+            arms[slot] = a;
+        }
+    }
+    if !violate {
+        // the twin: the missing variant back (irrefutable, anywhere), or a catch-all arm at the end
+        let style = if all_guarded { 1 + rng.next(2) } else { rng.next(3) };
+        match style {
+            0 => {
+                let pat = pattern(&variants[omit], None, &mut rng);
+                let at = rng.next(arms.len() + 1);
+                arms.insert(at, (omit, 0, pat, None));
+            }
+            1 => arms.push((usize::MAX, 0, "_".to_string(), None)),
+            _ => arms.push((usize::MAX, 0, "other".to_string(), None)),
+        }
+    }
     let mut lines: Vec<(usize, String)> = vec![(0, format!("match {subject}:"))];
-    let arm = |lines: &mut Vec<(usize, String)>, pat: &str, guard: bool| {
-        let g = if guard { " if n > 0" } else { "" };
+    for (_, _, pat, guard) in &arms {
+        let g = guard.as_ref().map(|g| format!(" if {g}")).unwrap_or_default();
         match spelling {
             0 => {
                 lines.push((1, format!("case {pat}{g}:")));
@@ -718,20 +900,6 @@ fn fill_match(c: &Case, violate: bool) -> Fill {
             }
             _ => lines.push((1, format!("{pat} => pass"))),
         }
-    };
-    for (i, a) in arms.iter().enumerate() {
-        if i == omit {
-            if !violate {
-                // the twin has the arm back, unguarded
-                arm(&mut lines, a, false);
-            }
-        } else {
-            arm(&mut lines, a, guards);
-        }
-    }
-    if guards && !violate {
-        // guarded arms do not cover their variant: make the twin truly exhaustive
-        arm(&mut lines, "_", false);
     }
     Fill { decls: vec![], body: Body::Match(lines), mut_self: false }
 }
@@ -1180,8 +1348,25 @@ fn judge(c: &Case) -> Judged {
 /// 4. otherwise `<leg>:<rule>:<ctx>`.
 fn fail_key(c: &Case, leg: &str) -> String {
     if leg == "accepted" {
-        if let Some(k) = c.construct_keys().first() {
-            return (*k).to_string();
+        // a construct key names the cause only if a probe confirms it: a rule-level cause must also show in a plain body,
+        // a context-level cause (`elif`, outer-scope assignment) must disappear without the context
+        let accepted = |c2: &Case| matches!(judge(c2).verdict, Verdict::Fail { leg: "accepted", .. });
+        let root = if c.rule.root_ok(Root::Func) { Root::Func } else { Root::ModelMethod };
+        let plain = Case { rule: c.rule, root, path: vec![], decl_up: 0, v: c.v };
+        let is_plain = c.path.is_empty() && c.root == root;
+        for k in c.construct_keys() {
+            let confirmed = if k == KEY_ELIF {
+                !accepted(&plain)
+            } else if k == KEY_OUTER_ASSIGN {
+                let mut same_scope = c.clone();
+                same_scope.decl_up = 0;
+                !accepted(&same_scope)
+            } else {
+                is_plain || accepted(&plain)
+            };
+            if confirmed {
+                return k.to_string();
+            }
         }
     }
     let fails_same_leg = |c2: &Case| matches!(judge(c2).verdict, Verdict::Fail { leg: l2, .. } if l2 == leg);
@@ -1347,6 +1532,16 @@ impl Run {
             self.ev.class(&format!("decl-scopes-up:{}", c.eff_decl_up()));
         }
         *self.cells_rule_ctx.entry(format!("{} @ {}", c.rule.name(), c.ctx_name())).or_insert(0) += 1;
+        if c.rule.kind() == Kind::Match {
+            // shape of the remaining arms in the violating program
+            let text = j.bad.get(j.construct.0..j.construct.1).unwrap_or("");
+            let arms = text.lines().skip(1).filter(|l| l.trim_start().starts_with("case ") || l.contains("=>")).count();
+            let nvars = if matches!(c.rule, Rule::MatchEnumUnit | Rule::MatchEnumData) { 3 } else { 2 };
+            self.ev.class(if arms >= nvars { "match-shape:arms>=variants" } else { "match-shape:arms<variants" });
+            if text.contains(" if ") {
+                self.ev.class("match-shape:guarded-arm");
+            }
+        }
     }
 
     /// Handle the verdict of one evaluated case; returns true if it failed (so the caller may shrink first).
@@ -1420,6 +1615,7 @@ fn build_case(raw: &RawCase, sw: Switches) -> Case {
     Case { rule, root, path, decl_up, v: raw.4 }
 }
 
+const MATCH_SHAPES: u8 = 24;
 const VARIANTS: [[u8; 4]; 4] = [[0, 0, 0, 0], [1, 1, 1, 1], [2, 2, 2, 2], [3, 5, 4, 3]];
 
 fn all_paths(max_depth: usize) -> Vec<Vec<Nest>> {
@@ -1561,6 +1757,12 @@ fn main() {
                     }
                     for v in VARIANTS {
                         cases.push(Case { rule, root, path: path.clone(), decl_up: du, v });
+                    }
+                    if rule.kind() == Kind::Match {
+                        // the shape of the remaining arms is derived from the variant bytes: sweep more of them
+                        for i in 0..MATCH_SHAPES {
+                            cases.push(Case { rule, root, path: path.clone(), decl_up: du, v: [i, i.wrapping_mul(7).wrapping_add(1), i.wrapping_mul(3).wrapping_add(2), i.wrapping_mul(5).wrapping_add(4)] });
+                        }
                     }
                 }
             }
